@@ -11,7 +11,7 @@ from . import c03 as A
 ID = 'C08'
 TITLE = 'timeseries operators equal the pointwise operation on aligned operands'
 LEAN_FILES = ['Basic', 'TSBasic', 'Fill', 'FillDriver', 'Align', 'AlignDriver', 'Ops', 'OpsF', 'OpsX', 'OpsFX', 'OpsDriver', 'FillLemmas', 'AlignLemmas', 'OpsLemmas',
-              'OpsFLemmas', 'OpsXLemmas', 'OpsFXLemmas', 'OpsFoldLemmas', 'OpsMixedLemmas', 'C08']
+              'OpsFLemmas', 'OpsXLemmas', 'OpsFXLemmas', 'OpsFoldLemmas', 'OpsMixedLemmas', 'OpsFCellLemmas', 'C08']
 RULE = ('distinct protocol lines (operator / aggregate, operands, index policy, fill method) on which the implementation returned a '
         'value and at least two Series / DataFrame operands are involved')
 TRUSTED = ['correspondence harness (pv.engine, pv.proto, pv.props._w5ts) and generators of pv.props.c08',
